@@ -24,7 +24,7 @@ from xdsl.transforms.dead_code_elimination import region_dce
 LEVEL = "other"
 EXPLANATION = (
     "The real PatternRewriteWalker/GreedyRewritePatternApplier/PatternRewriter run on IR skeletons whose per-op attribute "
-    "payloads are SYMBOLIC; a terminating pattern set (erase an op incl. nested regions, replace, modify in place, insert) "
+    "payloads are SYMBOLIC; a terminating pattern set (erase the matched op incl. nested regions, erase the next/previous sibling incl. nested regions, replace, modify in place, insert) "
     "matches on those payloads, so which ops are rewritten - and hence the whole rewrite schedule and worklist history - is "
     "determined by symbolic data and every combination is covered by the exploration. For each of the 8 walk configurations "
     "(x optional post-walk function) z3 decides: no exception escapes; every pattern invocation is on an op still attached to "
@@ -43,7 +43,7 @@ CONFIGS = list(itertools.product((False, True), repeat=3))  # regions_first, rec
 
 
 def bounds(tier):
-    return {"skeletons": ["deep", "flat"], "ops": 6, "symbolic_payloads": 4 if tier == "quick" else 6, "nesting_depth": 2, "payload_range": [0, 4], "walk_configurations": 8, "post_walk_func": ["none", "region_dce"]}
+    return {"skeletons": ["deep", "flat", "sib (patterns that erase a not-yet-visited region-holding sibling; payloads 0-6)"], "ops": 6, "symbolic_payloads": 4 if tier == "quick" else 6, "nesting_depth": 2, "payload_range": [0, 4], "walk_configurations": 8, "post_walk_func": ["none", "region_dce"]}
 
 
 def obligations(tier):
@@ -54,6 +54,8 @@ def obligations(tier):
                 # dce_only: the applier's own trivially-dead removal is off, so only the post-walk function can remove the dead pure op
                 obs.append({"id": f"C11/driver/{sk}/regions_first={int(rf)},recursive={int(rec)},reverse={int(rev)},post={pw}", "kind": "driver", "sk": sk,
                             "cfg": [rf, rec, rev], "post": pw, "weight": 4})
+    for rf, rec, rev in CONFIGS:
+        obs.append({"id": f"C11/driver/sib/regions_first={int(rf)},recursive={int(rec)},reverse={int(rev)},post=none", "kind": "driver", "sk": "sib", "cfg": [rf, rec, rev], "post": "none", "weight": 6})
     for m in REWRITER_CALLS:
         obs.append({"id": f"C11/rewriter/{m}", "kind": "rewriter", "call": m, "weight": 1})
     for a in ("insert_op", "notify_op_modified", "insert_block_argument"):
@@ -84,7 +86,7 @@ def mk(k, operands=(), regions=(), nres=1):
     return test.TestOp(operands=list(operands), result_types=[i32] * nres, attributes={"k": IntAttr(k)}, regions=list(regions))
 
 
-QUICK_SYMBOLIC = {"deep": (1, 2, 4, 5), "flat": (0, 1, 3, 5)}
+QUICK_SYMBOLIC = {"deep": (1, 2, 4, 5), "flat": (0, 1, 3, 5), "sib": ()}
 TIER = ["quick"]
 
 
@@ -99,6 +101,16 @@ def build(ex, sk):
         tail = mk(ks[5], [outer.results[0]])
         dead = test.TestPureOp(result_types=[i32])
         m = ModuleOp([outer, tail, dead])
+    elif sk == "sib":
+        # a region-holding op between two ops that may erase their NEXT (k=5) / PREVIOUS (k=6) sibling: the erased op and the ops nested in it
+        # are then still pending in the worklist (not the matched op, not yet visited), whatever the walk order
+        hi = 4 if TIER[0] == "thorough" else 3
+        ks = [V(ex, "k0", 0, 6), V(ex, "k1", 0, 4), V(ex, "k2", 0, hi), V(ex, "k3", 0, hi), V(ex, "k4", 0, 6)]
+        inner_b = mk(ks[3])
+        nested = mk(0, [], [Region([Block([inner_b])])])
+        inner_a = mk(ks[2])
+        victim = mk(ks[1], [], [Region([Block([inner_a, nested])])])
+        m = ModuleOp([mk(ks[0]), victim, mk(ks[4])])
     else:
         a = mk(ks[0])
         b = mk(ks[1], [a.results[0]])
@@ -136,6 +148,20 @@ class Pat(RewritePattern):
             rewriter.insert_op(mk(0), InsertPoint.before(op))
             op.attributes["k"] = IntAttr(0)
             rewriter.notify_op_modified(op)
+        elif k == 5 or k == 6:
+            other = sibling_to_erase(op, k)
+            if other is not None:
+                rewriter.erase_op(other)
+                op.attributes["k"] = IntAttr(0)
+                rewriter.notify_op_modified(op)
+
+
+def sibling_to_erase(op, k):
+    """k=5: the next sibling, k=6: the previous one - if it is a payload op none of whose results is used"""
+    other = op.next_op if bool(k == 5) else op.prev_op
+    if isinstance(other, test.TestOp) and K(other) is not None and all(not r.uses for r in other.results):
+        return other
+    return None
 
 
 def snap(m):
@@ -198,6 +224,10 @@ def driver_harness(ob):
                     cond = z3.And(as_z3_bool(k != 2), as_z3_bool(k != 3), as_z3_bool(k != 4))
                     if removable:
                         cond = z3.And(cond, as_z3_bool(k != 1))
+                    if sibling_to_erase(op, 5) is not None:
+                        cond = z3.And(cond, as_z3_bool(k != 5))
+                    if sibling_to_erase(op, 6) is not None:
+                        cond = z3.And(cond, as_z3_bool(k != 6))
                     props.append(cond)
             if post != "none":
                 props.append(z3.BoolVal(not any(isinstance(o, test.TestPureOp) and all(not r.uses for r in o.results) for o in m.walk())))
